@@ -170,6 +170,9 @@ def engine_run_concrete(task_factory, ev):
     task.ip.modular = False
     task.ctx.spec_depth = 0
     vals = {}
+    task.ctx.ip = task.ip
+    task.ctx.finfo0 = task.info
+    ev.ctx = task.ctx
     for n, sh in task.inst.items():
         if isinstance(sh, Shared):
             continue
